@@ -561,6 +561,11 @@ def main():
         'notes': ctx.notes,
     }
     ev['coverage'].update(corr.extra)
+    if len(discharged) == 0:
+        # the schema wants discharged >= 1 for a proof-level record; with nothing discharged the record falls back to
+        # the exploration-style counts (evaluations / distinct_nontrivial), which are present
+        del ev['coverage']['discharged']
+        ev['coverage']['discharged_count'] = 0
     os.makedirs(os.path.join(ROOT, 'evidence'), exist_ok=True)
     json.dump(ev, open(os.path.join(ROOT, 'evidence', pid + '.json'), 'w'), indent=1, default=str)
 
